@@ -5,7 +5,7 @@ import os
 import numpy as np
 from hypothesis import strategies as st
 
-from .. import container, reftdf, specs
+from .. import container, env, reftdf, specs
 from ..core import Sub, build_machine, run_history
 
 PROP = {
@@ -179,12 +179,22 @@ class Interp(container.ContainerInterp):
     # ---- one refused call -----------------------------------------------------------------
     def refused(self, cause, path, fn, must_raise=True):
         before = self.read_file()
+        ambient = env.ambient_state()
         try:
             fn()
             raised = None
         except Exception as e:  # noqa
             raised = e
         after = self.read_file()
+        if raised is not None:
+            # "later operations behave as if the failed call had never been made" - also those that depend on process-wide settings
+            now = env.ambient_state()
+            d = specs.first_diff(now, ambient)
+            if d:
+                env.restore_ambient(ambient)
+                self.ctx.fail(f"{cause}/{path}/interpreter-state-changed-{d[0].strip('/').split('/')[0]}",
+                              f"{path} refused ({type(raised).__name__}) because of {cause}; afterwards the process-wide setting {d[0]} is {d[1]!r}, before the call it was "
+                              f"{d[2]!r}: every later call in this process runs under it")
         cell = f"{cause}|{path}|{self.state_class()}"
         self.matrix[cell] = self.matrix.get(cell, 0) + 1
         self.ctx.evaluations += 1
